@@ -226,7 +226,13 @@ class Inliner(object):
         subst = {}
         pre = []
         for p, a in zip(params, args):
-            if _simple(a) and p['n'] not in written:
+            # a by-value parameter is a snapshot: an argument that reads state (a field, an accessor) may only be
+            # substituted for it if that state cannot change while the helper runs - decided later by the stability
+            # oracle on the argument copy; plain locals, constants, addresses and reference parameters are substituted
+            by_value = not p.get('ref') and p.get('tk') != 'ptr' and '&' not in (p.get('ty') or '') and '*' not in (p.get('ty') or '')
+            reads_state = any(x.get('k') in ('mem', 'call') for x in _walk(a)) and not \
+                (isinstance(a, dict) and a.get('k') == 'un' and a.get('op') == '&')
+            if _simple(a) and p['n'] not in written and not (by_value and reads_state):
                 subst[p['n']] = a
             else:
                 nn = p['n'] + sfx
